@@ -501,7 +501,8 @@ Record struct_ok (s : cst) : Prop := mkstruct {
   st_len    : (length (replicas s) <= rf s)%nat;
   st_wo     : (count_wo (replicas s) <= 1)%nat;
   st_rf     : (1 <= rf s)%nat;
-  st_avail  : avail s = existsb (fun p => is_rw (fst (snd p))) (backends s)
+  st_avail  : avail s = existsb (fun p => is_rw (fst (snd p))) (backends s);
+  st_reg    : NoDup (keys (registered s))
 }.
 
 (** *** list lemmas *)
@@ -629,20 +630,22 @@ Qed.
 
 (** *** helpers that leave replicas / backends / rf alone *)
 Definition same_struct_fields (s t : cst) : Prop :=
-  replicas t = replicas s /\ backends t = backends s /\ rf t = rf s /\ avail t = avail s.
+  replicas t = replicas s /\ backends t = backends s /\ rf t = rf s /\ avail t = avail s
+  /\ registered t = registered s.
 Lemma sst_refl : forall s, same_struct_fields s s.
 Proof. intros; repeat split. Qed.
 Lemma sst_trans : forall a b c, same_struct_fields a b -> same_struct_fields b c -> same_struct_fields a c.
-Proof. unfold same_struct_fields. intros a b c [H1 [H2 [H3 H4]]] [G1 [G2 [G3 G4]]]. repeat split; congruence. Qed.
+Proof. unfold same_struct_fields. intros a b c [H1 [H2 [H3 [H4 H5]]]] [G1 [G2 [G3 [G4 G5]]]]. repeat split; congruence. Qed.
 Lemma sst_struct : forall s t, same_struct_fields s t -> struct_ok s -> struct_ok t.
-Proof. unfold same_struct_fields. intros s t [H1 [H2 [H3 H4]]] [A B C D E F]. constructor; rewrite ?H1, ?H2, ?H3, ?H4; assumption. Qed.
+Proof. unfold same_struct_fields. intros s t [H1 [H2 [H3 [H4 H5]]]] [A B C D E F G]. constructor; rewrite ?H1, ?H2, ?H3, ?H4, ?H5; assumption. Qed.
 
 Lemma sst_upd_w : forall s v, same_struct_fields s (upd_w s v). Proof. intros; repeat split. Qed.
 Lemma sst_upd_rep : forall s a g, same_struct_fields s (upd_rep s a g). Proof. intros; repeat split. Qed.
 Lemma sst_upd_mon : forall s l p, same_struct_fields s (upd_mon s l p). Proof. intros; repeat split. Qed.
 Lemma sst_upd_checkpoint : forall s v, same_struct_fields s (upd_checkpoint s v). Proof. intros; repeat split. Qed.
 Lemma sst_upd_leader : forall s m g, same_struct_fields s (upd_leader s m g). Proof. intros; repeat split. Qed.
-Lemma sst_upd_registered : forall s v, same_struct_fields s (upd_registered s v). Proof. intros; repeat split. Qed.
+Lemma struct_upd_registered : forall s v, struct_ok s -> NoDup (keys v) -> struct_ok (upd_registered s v).
+Proof. intros s v [A B C D E F G] Hv. constructor; cbn; assumption. Qed.
 Lemma sst_upd_fe : forall s v, same_struct_fields s (upd_fe s v). Proof. intros; repeat split. Qed.
 Lemma sst_upd_csize : forall s v, same_struct_fields s (upd_csize s v). Proof. intros; repeat split. Qed.
 Lemma sst_upd_ninst : forall s v, same_struct_fields s (upd_ninst s v). Proof. intros; repeat split. Qed.
@@ -683,7 +686,7 @@ Qed.
 (** *** mode changes *)
 Lemma struct_set_mode : forall s a m, m <> WO -> struct_ok s -> struct_ok (set_mode_nolock s a m).
 Proof.
-  intros s a m Hm [Hn Hmi Hl Hw Hrf Hav]. unfold set_mode_nolock.
+  intros s a m Hm [Hn Hmi Hl Hw Hrf Hav Hreg]. unfold set_mode_nolock.
   eapply sst_struct; [apply sst_update_vol_status|].
   destruct (aget (replicas s) a) as [m0|] eqn:Eg; [|constructor; assumption].
   assert (G : struct_ok (backend_set_mode
@@ -701,7 +704,8 @@ Proof.
       - rewrite map_length. exact Hl.
       - pose proof (count_wo_setm_le (replicas s) a m Hm). lia.
       - exact Hrf.
-      - reflexivity. }
+      - reflexivity.
+      - exact Hreg. }
     destruct (mode_eqb m ERR); [eapply sst_struct; [apply sst_stop_monitoring|exact G1]|exact G1]. }
   destruct m0; try exact G. constructor; assumption.
 Qed.
@@ -717,7 +721,8 @@ Lemma remove_backend_fields : forall s a,
   avail s = existsb (fun p => is_rw (fst (snd p))) (backends s) ->
   replicas (remove_backend s a) = replicas s /\ rf (remove_backend s a) = rf s
   /\ backends (remove_backend s a) = adel (backends s) a
-  /\ avail (remove_backend s a) = existsb (fun p => is_rw (fst (snd p))) (adel (backends s) a).
+  /\ avail (remove_backend s a) = existsb (fun p => is_rw (fst (snd p))) (adel (backends s) a)
+  /\ registered (remove_backend s a) = registered s.
 Proof.
   intros s a Hav. unfold remove_backend.
   destruct (aget (backends s) a) as [[mb ib]|] eqn:Eb.
@@ -736,17 +741,18 @@ Proof.
   { subst s1. destruct (Nat.eqb (length (replicas s)) 1 && fe_up s); [|exact H].
     eapply sst_struct; [|exact H]. eapply sst_trans; [apply sst_upd_leader|apply sst_upd_fe]. }
   set (s2 := upd_registered s1 _).
-  assert (H2 : struct_ok s2) by (eapply sst_struct; [apply sst_upd_registered|exact H1]).
-  destruct H2 as [Hn Hmi Hl Hw Hrf Hav].
+  assert (H2 : struct_ok s2) by (apply struct_upd_registered; [exact H1|apply nodup_adel; exact (st_reg s1 H1)]).
+  destruct H2 as [Hn Hmi Hl Hw Hrf Hav Hreg].
   set (s3 := upd_replicas s2 (adel (replicas s2) a)).
-  destruct (remove_backend_fields s3 a Hav) as [R1 [R2 [R3 R4]]].
-  constructor; rewrite ?R1, ?R2, ?R3, ?R4; cbn [replicas backends rf s3 upd_replicas].
+  destruct (remove_backend_fields s3 a Hav) as [R1 [R2 [R3 [R4 R5]]]].
+  constructor; rewrite ?R1, ?R2, ?R3, ?R4, ?R5; cbn [replicas backends rf registered s3 upd_replicas].
   - apply nodup_adel. exact Hn.
   - rewrite proj_adel. f_equal. exact Hmi.
   - eapply Nat.le_trans; [apply length_adel_le|exact Hl].
   - eapply Nat.le_trans; [apply count_wo_adel_le|exact Hw].
   - exact Hrf.
   - reflexivity.
+  - exact Hreg.
 Qed.
 
 Lemma struct_handle_error : forall errs s, struct_ok s -> struct_ok (fst (handle_error_nolock s errs)).
@@ -808,7 +814,7 @@ Proof.
     { apply has_replica_in. apply find_some in Ef. destruct Ef as [Hin _].
       change wo with (fst (wo, m)). apply in_map. exact Hin. }
     destruct (replicas_remove s fs wo Hwo) as [R _]. rewrite R.
-    destruct H as [Hn _ _ Hw _ _]. eapply find_wo_some_adel; eauto.
+    destruct H as [Hn _ _ Hw _ _ _]. eapply find_wo_some_adel; eauto.
   - cbn [fst snd]. split; [exact H|]. intros _. split; [exact Eh|apply find_wo_none; exact Ef].
 Qed.
 
@@ -878,7 +884,7 @@ Proof.
   destruct (flt fs a KSetModeWO); [exact H3|].
   cbn [fst].
   eapply sst_struct; [apply sst_upd_mon|].
-  destruct H3 as [Hn Hmi Hl Hw Hrf Hav].
+  destruct H3 as [Hn Hmi Hl Hw Hrf Hav Hreg].
   assert (Hnin : ~ In a (keys (replicas s0))) by (intro Hin; apply has_replica_in in Hin; congruence).
   assert (Hnb : amem (backends s3) a = false).
   { unfold amem. rewrite aget_none_not_in; [reflexivity|]. rewrite <- keys_proj, Hmi, R1. exact Hnin. }
@@ -889,6 +895,7 @@ Proof.
   - rewrite count_wo_app. cbn. rewrite R1, Hnowo. cbn. lia.
   - exact Hrf.
   - reflexivity.
+  - exact Hreg.
 Qed.
 
 (** *** every event preserves the structural invariant *)
@@ -900,42 +907,77 @@ Proof.
   inversion Hc; subst. eapply sst_trans; [apply sst_upd_rep|apply sst_upd_ninst].
 Qed.
 
-Lemma struct_signal_replica : forall s fs, same_struct_fields s (fst (fst (signal_replica s fs))).
+Lemma struct_signal_replica : forall s fs, struct_ok s -> struct_ok (fst (fst (signal_replica s fs))).
 Proof.
-  intros s fs. unfold signal_replica. destruct (maxrev s) as [m|].
-  - destruct (flt fs m KSignal); cbn [fst]; [eapply sst_trans; [apply sst_upd_registered|apply sst_upd_leader]|apply sst_upd_leader].
-  - cbn [fst]. apply sst_upd_leader.
+  intros s fs H. unfold signal_replica. destruct (maxrev s) as [m|].
+  - destruct (flt fs m KSignal); cbn [fst].
+    + eapply sst_struct; [apply sst_upd_leader|]. apply struct_upd_registered; [exact H|apply nodup_adel; exact (st_reg s H)].
+    + eapply sst_struct; [apply sst_upd_leader|exact H].
+  - cbn [fst]. eapply sst_struct; [apply sst_upd_leader|exact H].
 Qed.
 
-Lemma sst_do_register : forall s a u r b pick fs, same_struct_fields s (fst (fst (do_register s a u r b pick fs))).
+Lemma keys_filter_subset : forall {V} (f : nat * V -> bool) l x, In x (keys (filter f l)) -> In x (keys l).
 Proof.
-  intros s a u r b pick fs. unfold do_register.
-  destruct (Nat.eqb u 0); [apply sst_refl|].
+  intros V f l x. unfold keys. intros H. apply in_map_iff in H. destruct H as [p [Hp Hin]].
+  apply filter_In in Hin. destruct Hin as [Hin _]. subst. apply in_map. exact Hin.
+Qed.
+
+Lemma nodup_filter_keys : forall {V} (f : nat * V -> bool) l, NoDup (keys l) -> NoDup (keys (filter f l)).
+Proof.
+  intros V f l. induction l as [|[k v] t IH]; cbn; intros H; [constructor|].
+  inversion H as [|x xs Hx Hd]; subst.
+  destruct (f (k, v)); [|apply IH; exact Hd]. cbn. constructor; [|apply IH; exact Hd].
+  intro Hin. apply Hx. eapply keys_filter_subset. exact Hin.
+Qed.
+
+Lemma keys_aset : forall {V} (l : list (nat * V)) a v x, In x (keys (aset l a v)) -> x = a \/ In x (keys l).
+Proof.
+  intros V l a v x. induction l as [|[k w0] t IH]; cbn; intros H.
+  - destruct H as [H|[]]. left. symmetry. exact H.
+  - destruct (Nat.eqb k a) eqn:E; cbn in H.
+    + destruct H as [H|H]; [right; left; exact H|right; right; exact H].
+    + destruct H as [H|H]; [right; left; exact H|]. destruct (IH H) as [G|G]; [left; exact G|right; right; exact G].
+Qed.
+
+Lemma nodup_aset : forall {V} (l : list (nat * V)) a v, NoDup (keys l) -> NoDup (keys (aset l a v)).
+Proof.
+  intros V l a v. induction l as [|[k w0] t IH]; cbn; intros H; [constructor; [auto|constructor]|].
+  inversion H as [|x xs Hx Hd]; subst.
+  destruct (Nat.eqb k a) eqn:E; cbn; [constructor; assumption|].
+  constructor; [|apply IH; exact Hd].
+  intro Hin. apply keys_aset in Hin. destruct Hin as [Hin|Hin]; [subst; rewrite Nat.eqb_refl in E; discriminate|contradiction].
+Qed.
+
+Lemma struct_do_register : forall s a u r b pick fs, struct_ok s -> struct_ok (fst (fst (do_register s a u r b pick fs))).
+Proof.
+  intros s a u r b pick fs H. unfold do_register.
+  destruct (Nat.eqb u 0); [exact H|].
   set (s1 := upd_registered s _).
-  assert (H1 : same_struct_fields s s1) by apply sst_upd_registered.
+  assert (H1 : struct_ok s1).
+  { apply struct_upd_registered; [exact H|]. apply nodup_aset. apply nodup_filter_keys. exact (st_reg s H). }
   destruct (replicas s1); [|exact H1].
   set (sw := if signalled s1 then _ else _).
   assert (Hsw : match sw with
-                | inr out => same_struct_fields s (fst (fst out))
+                | inr out => struct_ok (fst (fst out))
                 | inl None => True
-                | inl (Some (s2, _)) => same_struct_fields s s2 end).
+                | inl (Some (s2, _)) => struct_ok s2 end).
   { subst sw. destruct (signalled s1); [|exact H1].
     destruct (match maxrev s1 with Some m => Nat.eqb m a | None => false end); [exact H1|].
     destruct (match maxrev s1 with Some m => flt fs m KAlive | None => true end); [|exact H1].
     destruct (maxrev s1) as [m|].
-    - eapply sst_trans; [exact H1|]. eapply sst_trans; [apply sst_upd_registered|apply sst_upd_leader].
-    - eapply sst_trans; [exact H1|apply sst_upd_leader]. }
+    - eapply sst_struct; [apply sst_upd_leader|]. apply struct_upd_registered; [exact H1|apply nodup_adel; exact (st_reg s1 H1)].
+    - eapply sst_struct; [apply sst_upd_leader|exact H1]. }
   destruct sw as [[[s2 sg0]|]|out]; [| exact H1 | exact Hsw].
   destruct b; [exact Hsw|].
   set (s3 := match maxrev s2 with None => _ | Some _ => s2 end).
-  assert (H3 : same_struct_fields s s3).
-  { subst s3. destruct (maxrev s2); [exact Hsw|]. eapply sst_trans; [exact Hsw|apply sst_upd_leader]. }
+  assert (H3 : struct_ok s3).
+  { subst s3. destruct (maxrev s2); [exact Hsw|]. eapply sst_struct; [apply sst_upd_leader|exact Hsw]. }
   match goal with |- context [match ?L with Some l => _ | None => _ end] => destruct L as [l|] end; [|exact H3].
   set (s4 := upd_leader s3 l (signalled s3)).
-  assert (H4 : same_struct_fields s s4) by (eapply sst_trans; [exact H3|apply sst_upd_leader]).
+  assert (H4 : struct_ok s4) by (eapply sst_struct; [apply sst_upd_leader|exact H3]).
   destruct (Nat.leb (quorum (rf s4)) (length (registered s4))); [|exact H4].
-  pose proof (struct_signal_replica s4 fs) as H5.
-  destruct (signal_replica s4 fs) as [[s5 ok] sg]. cbn [fst] in *. eapply sst_trans; eauto.
+  pose proof (struct_signal_replica s4 fs H4) as H5.
+  destruct (signal_replica s4 fs) as [[s5 ok] sg]. exact H5.
 Qed.
 
 Lemma struct_rm_from_registered : forall s, struct_ok s -> struct_ok (rm_from_registered s).
@@ -989,7 +1031,7 @@ Proof.
   destruct (negb (signalled s) || negb _); [exact H|].
   set (s0 := upd_csize _ maxint).
   assert (H0 : struct_ok s0).
-  { subst s0. constructor; cbn; [constructor|reflexivity|lia|lia|exact Hrf|reflexivity]. }
+  { subst s0. constructor; cbn; [constructor|reflexivity|lia|lia|exact Hrf|reflexivity|exact (st_reg s H)]. }
   assert (Hroom : (length (replicas s0) < rf s0)%nat) by (subst s0; cbn; lia).
   cbn [start_adds].
   pose proof (struct_add_during_start s0 fs a0 H0 Hroom) as H1.
@@ -1082,7 +1124,7 @@ Proof.
   destruct (Nat.eqb (rf s1) (length (replicas s1))) eqn:Erf.
   { eapply sst_struct; [apply sst_close_new|exact H1]. }
   assert (Hroom : (length (replicas s1) < rf s1)%nat).
-  { apply Nat.eqb_neq in Erf. destruct H1 as [_ _ Hl _ _ _]. lia. }
+  { apply Nat.eqb_neq in Erf. destruct H1 as [_ _ Hl _ _ _ _]. lia. }
   pose proof (struct_add_replica_nolock s1 fs a i true H1 Hroom) as H2.
   destruct (add_replica_nolock s1 fs a i true) as [s2 r]. cbn [fst] in H2.
   destruct r; try exact H2.
@@ -1173,7 +1215,7 @@ Definition ev_wf (e : event) : bool :=
 Theorem struct_step : forall s e, struct_ok s -> ev_wf e = true -> struct_ok (fst (fst (step s e))).
 Proof.
   intros s e H Hwf. destruct e; cbn [step].
-  - eapply sst_struct; [apply sst_do_register|exact H].
+  - apply struct_do_register; exact H.
   - apply struct_do_start; [exact H|]. cbn in Hwf. apply Nat.leb_le in Hwf. exact Hwf.
   - pose proof (struct_do_add_check s a fs H). destruct (do_add_check s a fs); assumption.
   - pose proof (struct_do_add_commit s a fs H). destruct (do_add_commit s a fs); assumption.
@@ -1191,7 +1233,7 @@ Proof.
 Qed.
 
 Lemma struct_init : forall rf0 w0, (1 <= rf0)%nat -> struct_ok (init rf0 w0).
-Proof. intros rf0 w0 H. constructor; cbn; [constructor|reflexivity|lia|lia|exact H|reflexivity]. Qed.
+Proof. intros rf0 w0 H. constructor; cbn; [constructor|reflexivity|lia|lia|exact H|reflexivity|constructor]. Qed.
 
 Theorem struct_reachable : forall es rf0 w0, (1 <= rf0)%nat -> forallb ev_wf es = true ->
   struct_ok (run (init rf0 w0) es).
